@@ -26,6 +26,71 @@ OWNERS = {
 }
 
 
+class _SubsetDom(Domain):
+    """Provenance for Molecules.subset: which container is indexed by which selector, and what reaches the constructor."""
+    name = "SEL"
+
+    def __init__(self):
+        self.n = 0
+
+    def const(self, interp, value, node):
+        return Const(value)
+
+    def seed_param(self, interp, fn, arg):
+        return ("sym", arg.arg)
+
+    def seed_field(self, interp, obj, name, node):
+        if name in ("_pos", "pos"):
+            return ("base", "pos")
+        if name in ("_features", "features"):
+            return ("base", "feat")
+        return TOP
+
+    def attr(self, interp, val, name, node):
+        if type(val).__name__ == "Obj" and name == "pos":
+            return ("base", "pos")
+        if type(val).__name__ == "Obj" and name == "features":
+            return ("base", "feat")
+        return NotImplemented
+
+    def call_repo(self, interp, funcs, bound, args, kwargs, node):
+        names = {f.name for f in funcs}
+        if names & {"quaternion"}:
+            return ("base", "quat")
+        if names & {"pos"}:
+            return ("base", "pos")
+        if names & {"_is_boolean_array"}:
+            return TOP
+        return NotImplemented
+
+    def call_external(self, interp, name, recv, args, kwargs, node):
+        last = (name or "").rsplit(".", 1)[-1]
+        if last == "filter" and isinstance(recv, tuple) and recv[:1] == ("base",) and args:
+            return ("sel", recv[1], args[0])
+        if last == "slice":
+            return ("slice",) + tuple(repr(a) for a in args)
+        if last == "Rotation" and args:
+            return ("rot", args[0])
+        return TOP
+
+    def subscript(self, interp, val, index_node, index_val, node):
+        if isinstance(val, tuple) and val[:1] == ("base",):
+            return ("sel", val[1], index_val)
+        return NotImplemented
+
+    def binop(self, interp, op, l, r, node):
+        return ("expr", norm_src(node))
+
+    def compare(self, interp, node, vals):
+        return TOP
+
+    def truth(self, interp, val):
+        return None
+
+    def join(self, interp, a, b):
+        return a if a == b else TOP
+
+
 class _ConcatDom(Domain):
     """Provenance of what Molecules.concat hands to the constructor: per-input field lists concatenated in input order."""
     name = "CAT"
@@ -100,6 +165,30 @@ def lockstep_clause(model, rep, funcs):
         ctor_ok = bool(ok) and len(ctor) == sum(M.count(fm, b) for fm in forms)
         if ok and not ctor_ok:
             why = "a constructor call in subset does not take positions, rotations and features through the same selector"
+        if not (ok and ctor_ok):
+            # decided semantically: on every path the constructor receives pos[s], Rotation(quat[s]) and, when there are features, features[s] / features.filter(s)
+            sd = _SubsetDom()
+            it_s = Interp(model, sd, depth=0)
+            ctor_args = []
+
+            def _oc2(interp, fn, node, callee, args, kwargs, env):
+                if norm_src(node.func) == "self.__class__":
+                    ctor_args.append((args, kwargs))
+
+            it_s.on_call.append(_oc2)
+            it_s.run(f)
+            good = bool(ctor_args)
+            for args_, kw_ in ctor_args:
+                a0 = args_[0] if args_ else None
+                a1 = args_[1] if len(args_) > 1 else None
+                a2 = args_[2] if len(args_) > 2 else kw_.get("features")
+                if not (isinstance(a0, tuple) and a0[:2] == ("sel", "pos") and isinstance(a1, tuple) and a1[:1] == ("rot",) and isinstance(a1[1], tuple) and
+                        a1[1][:2] == ("sel", "quat") and a1[1][2] == a0[2]):
+                    good = False
+                if a2 is not None and not (isinstance(a2, Const) and a2.value is None) and not (isinstance(a2, tuple) and a2[:2] == ("sel", "feat") and a2[2] == a0[2]):
+                    good = False
+            if good and any((len(a_) > 2 or "features" in k_) for a_, k_ in ctor_args):
+                ok, ctor_ok, why = True, True, ""
         rep.ob("LOCK", f.anchor, "subset applies one selector to positions, quaternions and features (index or boolean filter) and rebuilds from exactly those",
                bool(ok and ctor_ok), why or f"constructor calls built from the selected rows: {ctor_ok}", node=f.node, fn=f,
                clause="1 lock-step", stmt="def subset")
